@@ -53,10 +53,20 @@ def ill_formed(rnd, prog):
     return kind, prog[:pos] + ins + prog[pos:]
 
 
+def fn_in_block(items, inblock=False):
+    """a function written inside a block / if body (its closure captures block-level bindings)"""
+    for kind, ch in items:
+        if kind == "F" and inblock:
+            return True
+        if kind in ("B", "I") and fn_in_block(ch, True):
+            return True
+    return False
+
+
 def structured_sample(tier):
     """a strided sample of the deterministic families the neighbouring properties enumerate (scope skeletons as
     function bodies, loop nests, control transfers in operand positions): whole-program behaviour is this
-    property's business whatever construct carries it"""
+    property's business whatever construct carries it; skeletons with a function inside a block are all taken"""
     from . import c04, c05, c07
     out = []
     stride = 9 if tier == "quick" else 2
@@ -68,7 +78,7 @@ def structured_sample(tier):
             continue
         seen.add(key)
         k += 1
-        if k % stride:
+        if k % stride and not fn_in_block(sk):
             continue
         en = c04.Enum()
         inner = c04.build(sk, en, 1, True)
